@@ -434,7 +434,7 @@ class C08(core.Check):
         'effect:mute', 'effect:include', 'effect:origin', 'effect:zone-switch', 'starts-in-named-zone', 'effect:unmute-inside-branch-while-muted', 'if:bare-literal', 'if:bare-symbol', 'if:bare-negative', 'if:text-comparison', 'if:op==', 'if:op!=',
         'if:op>', 'if:op>=', 'if:op<', 'if:op<=', 'ctx:unsel:nested-in-unselected', 'ctx:unsel:earlier-branch-taken',
         'ctx:unsel:condition-false', 'numeric-vs-text-disagree', 'stray:else', 'stray:elif', 'stray:endif', 'stray:in-included-file', 'same-condition-text-before-and-after-define',
-        'source:cli', 'source:isa', 'condition:shift-operator', 'condition:quotient-that-is-no-integer', 'condition:alias-symbol-seen-before-its-target-is-defined', 'condition:ifdef-of-a-name-that-is-a-constant-or-label-only',
+        'source:cli', 'source:isa', 'condition:shift-operator', 'condition:quotient-that-is-no-integer', 'condition:symbol-named-almost-like-a-number', 'condition:alias-symbol-seen-before-its-target-is-defined', 'condition:ifdef-of-a-name-that-is-a-constant-or-label-only',
         'uncompiled-label-or-origin-between-a-local-label-and-its-use']}
 
     def finish(self, g, rng, extra_tags=()):
@@ -606,6 +606,21 @@ class C08(core.Check):
                                      'argv': ['compile', '-c', fn0, 'p.asm', '-o', 'out.bin'], 'probes': ['steps', 'cond'], 'step_limit': 500000}],
                            'meta': {'model': {'kind': 'ACCEPT', 'image': bytes([1, 2] + live_extra + ub + [5]).hex()}, 'markers': {}},
                            'tags': ['uncompiled-label-or-origin-between-a-local-label-and-its-use', 'expect:ACCEPT']}
+        # symbols whose names read almost like numbers (a binary or hexadecimal literal in another letter case): in a condition they
+        # stand for their replacement text like any other symbol
+        for sym, val, cond_txt, truth in (('B1', '0', 'B1', False), ('B1', '0', 'B1 == 0', True), ('B1', '5', 'B1 == 1', False), ('AH', '3', 'AH == 3', True),
+                                          ('AH', '3', 'AH > 3', False), ('AH', '3', '10 == AH', False), ('EACH', '1', 'EACH', True), ('EACH', '0', 'EACH', False),
+                                          ('B10', '2', 'B10 == 2', True), ('B10', '7', 'B10 < 3', False), ('BACH', '0', 'BACH != 0', False), ('C0H', '4', 'C0H >= 5', False)):
+            for kind_ in ('if', 'elif', 'alias'):
+                head = [f'#if {cond_txt}'] if kind_ != 'elif' else ['#if 0', '.byte 9', f'#elif {cond_txt}']
+                defs = [f'#define {sym} {val}'] if kind_ != 'alias' else [f'#define ALIAS_Q {sym}', f'#define {sym} {val}']
+                if kind_ == 'alias':
+                    head = [h_.replace(sym, 'ALIAS_Q') for h_ in head]
+                src = defs + head + ['.byte 3', '#else', '.byte 4', '#endif', '.byte 5']
+                yield {'runs': [{'files': {fn0: text0, 'p.asm': '\n'.join(src) + '\n'},
+                                 'argv': ['compile', '-c', fn0, 'p.asm', '-o', 'out.bin'], 'probes': ['steps', 'cond'], 'step_limit': 500000}],
+                       'meta': {'model': {'kind': 'ACCEPT', 'image': bytes([3 if truth else 4, 5]).hex()}, 'markers': {}},
+                       'tags': ['condition:symbol-named-almost-like-a-number', 'expect:ACCEPT']}
         # #ifdef / #ifndef look at preprocessor symbols only: a constant or a label of that name, defined in compiled code in
         # front of the test, does not make the name a defined symbol
         for definer in (['LIMIT_Q = 5'], ['LIMIT_Q EQU 5'], ['LIMIT_Q:', '.byte 7'], ['_limit_q = 5'], ['LIMIT_Q = 5', 'other_q = LIMIT_Q + 1']):
